@@ -428,6 +428,28 @@ class Built(object):
         return out + [(fn, ft) for fn, ft in td['fields']]
 
 
+def inheritance_ir(uid=9100, ns2=True):
+    """fixed universe: a three-level class tree in which every level declares mandatory, optional, bounded-repeat, array and
+    faceted members, used as a plain argument, inside an array, inside a holder and (XML) as a bare message"""
+    ns = 'urn:vf:inh'
+    I = lambda **f: {'prim': 'Integer', 'facets': f}
+    U = lambda **f: {'prim': 'Unicode', 'facets': f}
+
+    def level(k, nsx):
+        return [['m%d' % k, dict(U(), min_occurs=1, nillable=False)], ['o%d' % k, I(ge=0, le=9)],
+                ['r%d' % k, dict({'seq': I(), 'max': 2})], ['a%d' % k, {'array': U(max_len=3)}],
+                ['n%d' % k, dict(I(), min_occurs=1)]]
+    types = [{'name': 'L0', 'ns': ns, 'base': None, 'has_xmldata': False, 'fields': level(0, ns)},
+             {'name': 'L1', 'ns': ns, 'base': 'L0', 'has_xmldata': False, 'fields': level(1, ns)},
+             {'name': 'L2', 'ns': ns, 'base': 'L1', 'has_xmldata': False, 'fields': level(2, ns)},
+             {'name': 'Hold', 'ns': ns + (':h' if ns2 else ''), 'base': None, 'has_xmldata': False,
+              'fields': [['one', dict({'ref': 'L2'}, min_occurs=1)], ['many', {'array': {'ref': 'L1'}}], ['few', {'seq': {'ref': 'L2'}, 'max': 2}]]}]
+    M_ = lambda name, args, style='wrapped': {'name': name, 'args': args, 'returns': [], 'style': style}
+    return {'uid': uid, 'tns': ns, 'types': types, 'services': [{'name': 'S', 'methods': [
+        M_('p1', [['x', {'ref': 'L1'}]]), M_('p2', [['x', {'ref': 'L2'}], ['k', I()]]), M_('arr', [['xs', {'array': {'ref': 'L2'}}]]),
+        M_('hold', [['h', {'ref': 'Hold'}]]), M_('bare2', [['arg', {'ref': 'L2'}]], 'bare')]}]}
+
+
 def header_names(md, which):
     h = md.get(which)
     return [] if not h else [h] if isinstance(h, str) else list(h)
